@@ -174,11 +174,15 @@ func c13Case(b *Batch, idx int) {
 	cfg := cache.Config{TimeToLive: cache.UnlimitedTTL, EvictionStrategy: strategies[rng.Intn(3)]}
 	keys := randKeySet(rng, n)
 	ttlOpt := func() (ctxTTL time.Duration) {
-		switch rng.Intn(3) {
-		case 0:
+		switch rng.Intn(6) {
+		case 0, 1:
 			return 0
-		case 1:
+		case 2:
 			return time.Hour
+		case 3:
+			return -100 * 365 * 24 * time.Hour // expiry before 1970: negative timestamp
+		case 4:
+			return 100 * 365 * 24 * time.Hour
 		}
 		return -time.Hour
 	}
